@@ -17,9 +17,12 @@ def render_ft(rng, tag, uri, is_sip, decorate, has_tag=True):
     hparams = []
     if decorate:
         if is_sip and rng.random() < 0.7:
-            u = u + rng.choice([b";transport=tcp", b";lr", b";x=1;lr;y", b";user=phone"])
-            if rng.random() < 0.3:
-                u += b"?h=v"
+            # URI parameters, URI headers, or both (a URI may carry headers WITHOUT parameters)
+            k = rng.random()
+            if k < 0.75:
+                u = u + rng.choice([b";transport=tcp", b";lr", b";x=1;lr;y", b";user=phone"])
+            if k < 0.25 or k >= 0.75:
+                u += rng.choice([b"?h=v", b"?Subject=hello", b"?a=b&c=d"])
         disp = rng.choice([b"", b"Alice ", b"\"A. B-1\" ", b"\"-\""])
         hparams = rng.choice([[], [b"x=y"], [b"a", b"b=c-d"]])
     tagp = []
